@@ -33,6 +33,8 @@ from commonroad.common.file_writer import CommonRoadFileWriter, OverwriteExistin
 from commonroad.common.util import FileFormat
 from commonroad.scenario.lanelet import Lanelet
 from commonroad.scenario.obstacle import DynamicObstacle, ObstacleType, StaticObstacle
+from commonroad.planning.goal import GoalRegion
+from commonroad.planning.planning_problem import PlanningProblem
 from commonroad.scenario.scenario import ScenarioID, Tag
 from commonroad.scenario.state import InitialState
 from commonroad.geometry.shape import Rectangle
@@ -143,6 +145,16 @@ def build_world(scen_seed):
         sc.author, sc.affiliation, sc.source = f"author{i}", f"affiliation{i}", f"source{i}"
         sc.tags = {Tag.URBAN, Tag.HIGHWAY} if i % 2 == 0 else {Tag.INTERSECTION}
         pps = scen.rand_planning_problem_set(rng, first_id=900 + 10 * i)
+        # a goal whose position is given by lanelets, listed in an order of the user's choosing (not ascending): what a
+        # writer does with the list it is handed must not show in what the next writer sees (seed C15-15)
+        # (lanelets_of_goal_position is immutable: the problem is put together anew)
+        for pid, pp in list(pps.planning_problem_dict.items()):
+            js = [j for j, g in enumerate(pp.goal.state_list) if getattr(g, "position", None) is not None]
+            if js:
+                del pps.planning_problem_dict[pid]
+                pps.add_planning_problem(PlanningProblem(pid, pp.initial_state,
+                                                         GoalRegion(pp.goal.state_list, {js[0]: [86, 85]})))
+                break
         out.append((sc, pps))
     return out
 
